@@ -82,9 +82,9 @@ class EmergencyVehicleApproachingService:
             self.event_position["longitude"] = int(tpv["lon"] * 10000000)
         if "altHAE" in tpv.keys():
             alt = int(tpv["altHAE"] * 100)
-            if alt < -800000:
+            if alt <= -100000:  # AltitudeValue negativeOutOfRange: -1 000 m or less
                 self.event_position["altitude"]["altitudeValue"] = -100000
-            elif alt > 613000:
+            elif alt >= 800000:  # AltitudeValue postiveOutOfRange: 8 000 m or more
                 self.event_position["altitude"]["altitudeValue"] = 800000
             else:
                 self.event_position["altitude"]["altitudeValue"] = int(
